@@ -6,7 +6,7 @@ tbl=subprocess.check_output(['python3',os.path.join(here,'design_table.py')],tex
 p=os.path.join(here,'..','DESIGN.md')
 s=open(p).read()
 a=s.index('| id | written for | needs, to manifest |')
-m=re.search(r'\n\n(?=Of the \d+)', s[a:])
+m=re.search(r'\n\n(?=Of the (?:first )?\d+)', s[a:])
 b=a+m.start()
 s=s[:a]+tbl+s[b:]
 open(p,'w').write(s)
